@@ -23,7 +23,7 @@ from vf.core import Ctx, Found, HarnessError  # noqa: E402
 
 sys.path.insert(0, core.REPO_ROOT)
 
-MAX_ROUNDS = 4
+MAX_ROUNDS = int(os.environ.get("VERIF_MAX_ROUNDS", "4"))  # sensitivity runs only need the first bucket
 
 
 def load_known(pid):
@@ -133,7 +133,7 @@ def run(pid, tier, seed, shard, nshards, outfile):
                 return False
 
         state["tally"] = False
-        budget = 250 if tier == "quick" else 1500
+        budget = int(os.environ.get("VERIF_MIN_BUDGET", "250" if tier == "quick" else "1500"))
         protect = getattr(mod, "PROTECT", ())
         try:
             small, used = core.minimise(case, still, budget=budget, protect=protect)
